@@ -105,6 +105,8 @@ pub fn value(rng: &mut Rng, v: V) -> String {
             }
             // negated architecture lists are not representable in the lossy relation type (C10/C14 territory)
             f.neg_archs = rng.chance(1, 10);
+            // an empty restriction list is a value of its own (Some(vec![])): the printer must keep it
+            f.empty_archs = rng.chance(1, 4);
             relations::field(rng, &f)
         }
         V::Multi => text::value(rng, true, true),
@@ -129,7 +131,9 @@ pub fn value(rng: &mut Rng, v: V) -> String {
             .map(|_| format!("{} {} {} {} {}", hex(rng, 32), rng.below(100000), rng.pick(&["net", "contrib/utils", "main"]), rng.pick(&["optional", "extra"]), word(rng)))
             .collect::<Vec<_>>()
             .join("\n"),
-        V::Date => rng.pick(&["Sat, 14 Dec 2024 10:15:30 +0000", "Mon, 01 Jan 2024 00:00:00 UTC", "Tue, 29 Feb 2028 23:59:59 +0100", "Sat, 24 Aug 2024 14:13:49 UTC"]).to_string(),
+        V::Date => rng.pick(&["Sat, 14 Dec 2024 10:15:30 +0000", "Mon, 01 Jan 2024 00:00:00 UTC", "Tue, 29 Feb 2028 23:59:59 +0100", "Sat, 24 Aug 2024 14:13:49 UTC",
+            // RFC 2822 makes the day of week and the seconds optional, with either zone spelling
+            "09 Aug 2025 09:05:32 UTC", "Sat, 09 Aug 2025 09:05 UTC", "14 Dec 2024 10:15 +0000", "9 Aug 2025 09:05 UTC"]).to_string(),
         V::DateYmd => rng.pick(&["2024-12-14", "2000-02-29", "1999-01-01"]).to_string(),
         V::Identity => identity(rng),
         V::Vcs => vcs(rng),
